@@ -3,8 +3,8 @@
 Supersedes contracts/c17_builders.py (same clauses kept: count, kind of the first variable, refusal of the wrong number of
 coefficients) - the trivial ASSUMED constructor contracts of that module are replaced by the VERIFIED node contracts of
 contracts/c05c_nodes.py + contracts/c17d_nodes.py, and the value of every built tree (c05c_val, specs/c05c_specs.py) is
-proved equal to the documented closed form (the text PWV / SUM of contracts/piecewise.py, i.e. the same term that
-piecewise_function is proved to compute).
+proved equal to the documented closed form in its max / min form PWV_DOC; for increasing thresholds this is the case form
+PWV / SUM of contracts/piecewise.py that piecewise_function is proved to compute (lemma in contracts/c17d_lemmas.py).
 """
 import re
 
@@ -71,7 +71,7 @@ contract(Q + 'piecewise_variables', P,
 # ------------------------------------------------------------------------------------------------ piecewise_formula
 # value of the returned tree == sum_q value(beta_q) * (q-th piecewise variable at x): the closed form SUM of
 # contracts/piecewise.py with the coefficients read as the values of the coefficient expressions (for increasing thresholds
-# the max/min form PWV_DOC and the case form PWV of that module coincide: obligation `doc_form_is_case_form` below)
+# the max/min form PWV_DOC and the case form PWV of that module coincide: lemma C17:lemma:piecewise:documentation-form-...)
 _BAD_VARIABLE = 'not isinstance(variable, str) and not isinstance(variable, Variable)'
 _BQ = "c05c_val(typed(betas, 'list[Expression]')[q])"
 SUM_DOC = f"sum_range(lambda q: {_BQ} * {pwv()}, 0, len(thresholds) - 1)"
